@@ -165,6 +165,23 @@ theorem C11_accessors_pgm [HasSqrt K] (p : PGMParams σ K X) (s : PGMState σ K 
     unfold apgmSpecStep apgmNormResidual
     cases hkk : p.pol.kind <;> simp_all
 
+/-- constructors / `z_init` / `u_init`: `x = x0` (zeros when `None`), `z_i = C_i x0`, `z_old = z`, `u_i = 0`
+    (ADMM, LinearizedADMM); missing starts are zeros and the previous-iterate copies equal the current
+    ones (ProximalADMM family, PDHG); `v = x0`, `t = 1`, `L = L0`, residual `inf` (PGM / AcceleratedPGM) -/
+theorem C11_init (pa : ADMMParams K X Z) (pl : LADMMParams K X Z) (x0 : X) (z0 : Z) (u0 : U) (L0 inf : K) (m : σ) :
+    admmInit pa (some x0) = { x := x0, z := pa.C.map (fun C => C x0), zOld := pa.C.map (fun C => C x0),
+                              u := pa.C.map (fun _ => 0) } ∧
+    (admmInit pa none).x = 0 ∧
+    ladmmInit pl (some x0) = { x := x0, z := pl.C x0, zOld := pl.C x0, u := 0 } ∧
+    (ladmmInit pl none).x = 0 ∧
+    (padmmInit (some x0) (some z0) (some u0) : PADMMState X Z U) = { x := x0, z := z0, zOld := z0, u := u0, uOld := u0 } ∧
+    (padmmInit none none none : PADMMState X Z U) = { x := 0, z := 0, zOld := 0, u := 0, uOld := 0 } ∧
+    (pdhgInit (some x0) (some z0) : PDHGState X Z) = { x := x0, xOld := x0, z := z0, zOld := z0 } ∧
+    (pdhgInit none none : PDHGState X Z) = { x := 0, xOld := 0, z := 0, zOld := 0 } ∧
+    (pgmInit L0 inf x0 m : PGMState σ K X) = { x := x0, L := L0, fpr := inf, mem := m } ∧
+    (apgmInit L0 inf x0 m : APGMState σ K X) = { x := x0, v := x0, t := 1, L := L0, fpr := inf, mem := m } :=
+  ⟨rfl, rfl, rfl, rfl, rfl, rfl, rfl, rfl, rfl, rfl⟩
+
 /-- the defect of the pinned tree, as a theorem about the pinned body: ignoring the supplied `x`
     is *not* the documented residual (witness over ℚ: `C = id`, `z = 0`, current `x = 0`,
     supplied `x = 1`) -/
